@@ -1,6 +1,6 @@
 (* Extraction of Model/Privacy.v (which includes Model/QnMatch.v, Spec/ReFrag.v, Spec/Glob.v):
    ExtrOcamlBasic only; N/Z/positive/nat stay inductives. *)
 From Coq Require Import ExtrOcamlBasic.
-From PydoctorVerif Require Import Base.Sexp Spec.ReFrag Spec.Glob Model.QnMatch Model.Privacy.
+From PydoctorVerif Require Import Base.Sexp Spec.ReFrag Spec.Glob Spec.PrivacySpec Model.QnMatch Model.Privacy.
 Extraction Language OCaml.
 Extraction "model.ml" run.
